@@ -158,9 +158,11 @@ fn writers_for<B: crate::backends::Backend>(out: &mut Vec<SubCheck>) {
         cases,
         move |_t| {
             let has_i = B::VER.has_assertion();
-            (any::<u64>(), piece(), piece(), piece(), any::<u32>(), any::<bool>()).prop_map(move |(k, msg, footer, assertion, n, public)| {
+            // the header piece is passed as three fragments (version, payload-encoding suffix, purpose):
+            // a third of the cases use a payload type with a non-empty suffix so that their order matters
+            (any::<u64>(), piece(), piece(), piece(), any::<u32>(), any::<bool>(), prop::bool::weighted(0.35)).prop_map(move |(k, msg, footer, assertion, n, public, suffix)| {
                 let assertion = if has_i { assertion } else { BytesSpec::empty() };
-                (public, LCase { suffix: false, key: KeySeed::from_u64(k), msg: msg.clone(), footer: footer.clone(), assertion: assertion.clone(), nonce: NonceKind::Seed(n) }, PCase { suffix: false, key_variant: 0, key: KeySeed::from_u64(k), msg, footer, assertion, signer: (n % 3) as u8 })
+                (public, LCase { suffix, key: KeySeed::from_u64(k), msg: msg.clone(), footer: footer.clone(), assertion: assertion.clone(), nonce: NonceKind::Seed(n) }, PCase { suffix, key_variant: 0, key: KeySeed::from_u64(k), msg, footer, assertion, signer: (n % 3) as u8 })
             })
         },
         move |c: &(bool, LCase, PCase), acc: &mut Acc| {
@@ -176,7 +178,7 @@ pub fn def() -> PropertyDef {
     PropertyDef {
         id: "C15",
         level: "exploration",
-        rule: "proptest cases: piece count 0..8 (one const-generic instantiation per N) x 0..4 fragments per piece x fragment lengths 0..600; oracle: output equals the reference PAE of the concatenated pieces, the reference PAE parser recovers exactly the piece list (injectivity), a recording streaming writer and the &mut adapter receive the same bytes, re-fragmenting does not change the output, and moving 1-3 bytes across a piece boundary always changes it; the back ends' private digest / MAC / signature writer adapters are exercised through tokens whose message, footer and assertion have every length 0..700: the tag / signature must be the one over the reference PAE (bit-exact token, independent verifier, sibling acceptance). Non-trivial iff >= 2 pieces with a multi-fragment piece, or a boundary-shift pair was checked",
+        rule: "proptest cases: piece count 0..8 (one const-generic instantiation per N) x 0..4 fragments per piece x fragment lengths 0..600; oracle: output equals the reference PAE of the concatenated pieces, the reference PAE parser recovers exactly the piece list (injectivity), a recording streaming writer and the &mut adapter receive the same bytes, re-fragmenting does not change the output, and moving 1-3 bytes across a piece boundary always changes it; the back ends' private digest / MAC / signature writer adapters are exercised through tokens whose message, footer and assertion have every length 0..700, with and without a payload-encoding suffix in the fragmented header piece: the tag / signature must be the one over the reference PAE (bit-exact token, independent verifier, sibling acceptance). Non-trivial iff >= 2 pieces with a multi-fragment piece, or a boundary-shift pair was checked",
         assumptions: vec!["the back ends' writer adapters are private: they are observed through the MAC / signature they produce"],
         subs,
     }
